@@ -10,7 +10,7 @@ PROP = dict(
                 "near-miss spellings; searches for a counterexample, does not prove absence."),
     level_note="Trusted: Go standard library strconv (oracle for validity everywhere and for values up to 700 digits), math/big (midpoint construction; value oracle beyond 700 digits). Inputs are single white-space-free fields below the scanner's line limit.",
     technique="property-based differential testing (rapid) + enumerated hostile constants + native fuzzing in thorough",
-    rule=("One-line inputs 'BenchmarkX 1 <txt> u' / 'BenchmarkX <txt> 1 u' with <txt> from four aimed generators "
+    rule=("One-line inputs 'BenchmarkX 1 <txt> <unit>' / 'BenchmarkX <txt> 1 u' (unit 'u' or, in a quarter of the value cases, one of ten units with components that need no rescaling such as sec/ns, B/MB, optionally after another reader has read the unit that rescales into it) with <txt> from four aimed generators "
           "(numeric grammar incl. hex/underscore/inf/nan spellings; float-derived texts incl. exact decimal midpoints "
           "between adjacent floats and their neighbours; range-edge constants; integers around 2^53/2^63/2^64 and the "
           "fast-path guard; hexadecimal texts on and next to rounding boundaries incl. the subnormal border; digit strings next to powers of five; more than 800 significant digits) plus single-edit mutations; oracle strconv.ParseFloat/Atoi bit-for-bit, except that plain decimal texts of more than 700 digits are judged against big.Rat rounding because strconv itself misplaces the decimal point beyond 800 digits. Non-trivial = strconv "
